@@ -919,13 +919,10 @@ def judge_cycles(chk, records, stream):
                   "abstract_request": res["abs_req"], "netlist_request": res["net_req"], "problems": res["problems"]}
         if impl == "AssertionError" and spec_abs == "CombinationalCycle" and d["unfixed"] == "assert":
             replay["classes"] = ["F5"]
-        if spec_net != spec_abs:
-            # the harness's per-construct reading and the emitted netlist disagree about the dependencies:
-            # no statement about the real code can be made from this case
-            chk.hist("not_shown", "cycle:construct-reading")
-            chk.not_shown("the harness's reading of a construct disagrees with the emitted netlist "
-                          f"(abstract graph {spec_abs}, netlist graph {spec_net}, real code {impl})", replay)
-        elif impl != spec_abs:
+        if impl != spec_abs:
+            # The Spec on the abstract graph is the reference: it does not depend on comb_edges_to. (If
+            # `spec_netlist` in the replay equals the real outcome, either comb_edges_to drops a dependency
+            # or the harness misreads a construct - stmt_deps - and has to be corrected.)
             chk.hist("violations", "cycle:" + ",".join(replay.get("classes", ["unclassified"])))
             chk.violation(f"combinational cycle: real code says {impl}, Spec says {spec_abs} "
                           f"({case.get('family', 'cycle')} {case.get('index', '')})", replay)
@@ -933,7 +930,11 @@ def judge_cycles(chk, records, stream):
             chk.hist("violations", "cycle:public-api")
             chk.violation(f"combinational cycle: public API says {res['public']}, check_comb_cycles says {impl}", replay)
         else:
-            if model_net != impl or model_abs != spec_abs:
+            if spec_net != spec_abs:
+                chk.hist("not_shown", "cycle:construct-reading")
+                chk.not_shown("the dependency graph of the emitted netlist disagrees with the abstract graph "
+                              f"(abstract graph {spec_abs}, netlist graph {spec_net}, real code {impl})", replay)
+            elif model_net != impl or model_abs != spec_abs:
                 chk.hist("not_shown", "cycle:dfs-model")
                 chk.not_shown(f"DFS model says {model_net} on the dumped netlist, real code says {impl}", replay)
             elif impl == "CombinationalCycle" and int(d["len"]) != res["pathlen"]:
